@@ -93,7 +93,11 @@ def Call.ainv (pr : Proc) (hs : HS) (p : Pid) : Call → Prop
     | .kDt => s.failing.isSome = true ∧ Clear hs p s.h.addr none
     | .kStat | .kRmid | .kUnlink | .kSem _ => s.failing.isSome = true
     | _ => s.h.addr = .null
-  | .shmFree s => s.pc = .kDt → Clear hs p s.h.addr none
+  | .shmFree s =>
+    match s.pc with
+    | .kDt => Clear hs p s.h.addr none
+    | .kStat | .kRmid | .kUnlink | .kSem _ => True
+    | _ => False
   | .lockOp hid m _ => attached pr m ∧ Clear hs p m.addr (some hid)
   | _ => True
 
@@ -116,7 +120,10 @@ theorem ainv_mono (pr : Proc) (hs hs' : HS) (p : Pid) (c : Call)
   | shmNew hid s =>
     simp only [Call.ainv] at hc ⊢
     split <;> simp_all <;> first | exact ⟨hc.1, clear_mono hs hs' p _ _ hsub hc.2⟩ | exact clear_mono hs hs' p _ _ hsub hc.2 | exact clear_mono hs hs' p _ _ hsub hc
-  | shmFree s => intro hp; exact clear_mono hs hs' p _ _ hsub (hc hp)
+  | shmFree s =>
+    simp only [Call.ainv] at hc ⊢
+    split <;> simp_all
+    exact clear_mono hs hs' p _ _ hsub hc
   | lockOp hid m s => exact ⟨hc.1, clear_mono hs hs' p _ _ hsub hc.2⟩
   | _ => trivial
 
@@ -271,5 +278,367 @@ theorem attached_sysStep (p q : Pid) (intr : Bool) (c : Sys) (os : OS) (nm : Nat
         exact ha
   · rw [sysStep_procs_other q p intr c os nm hq]
     exact ha
+
+/-! ## per action -/
+
+theorem attinv_kill (g : G) (q : Pid) (hi : AttInv g) : AttInv (g.kill q) := by
+  have hsub : ∀ h p m, (g.kill q).hs h = some (p, .shm m) → g.hs h = some (p, .shm m) ∧ p ≠ q := by
+    intro h p m hm
+    simp only [G.kill] at hm
+    split at hm
+    · rename_i p' x hx
+      split at hm
+      · cases hm
+      · rename_i hne
+        simp only [Option.some.injEq, Prod.mk.injEq] at hm
+        obtain ⟨rfl, rfl⟩ := hm
+        exact ⟨hx, hne⟩
+    · cases hm
+  have hprocs : ∀ p, p ≠ q → (g.kill q).os.procs p = g.os.procs p := by
+    intro p hp; simp [G.kill, OS.kill, hp]
+  refine ⟨hi.inj, ?_, ?_, ?_, ?_⟩
+  · intro p att hatt
+    by_cases hp : p = q
+    · subst hp; simp [G.kill, OS.kill] at hatt
+    · rw [hprocs p hp] at hatt ⊢; exact hi.fresh p att hatt
+  · intro h p m hm
+    obtain ⟨h0, hp⟩ := hsub h p m hm
+    rw [hprocs p hp]; exact hi.hs h p m h0
+  · intro h1 h2 p m1 m2 e1 e2 ea
+    exact hi.distinct h1 h2 p m1 m2 (hsub h1 p m1 e1).1 (hsub h2 p m2 e2).1 ea
+  · intro t c hc
+    simp only [G.kill] at hc
+    split at hc
+    · cases hc
+    · rename_i hne
+      have hp : (g.kill q).pidOf t ≠ q := hne
+      have hpid : (g.kill q).pidOf t = g.pidOf t := rfl
+      rw [hprocs _ hp, hpid]
+      refine ainv_mono _ g.hs _ _ c ?_ (hi.calls t c hc)
+      intro h m hm
+      exact ⟨m, (hsub h _ m hm).1, rfl⟩
+
+/-- a step that changes no attachment list and does not store a segment struct -/
+theorem attinv_step_plain (g : G) (t : Tid) (intr : Bool) (c : Call) (hi : AttInv g) (hc : g.calls t = some c)
+    (hproc : (sysStep (g.pidOf t) intr c.next g.os c.name).1.procs = g.os.procs)
+    (hout : match c.after (sysStep (g.pidOf t) intr c.next g.os c.name).2 with
+            | .cont c' => c'.ainv (g.os.procs (g.pidOf t)) g.hs (g.pidOf t)
+            | .done (_, some (_, some (.shm _))) => False
+            | _ => True) : AttInv (g.step t intr) := by
+  have hos := step_os g t intr c hc
+  simp only [G.step, hc] at hos ⊢
+  cases hr : c.after (sysStep (g.pidOf t) intr c.next g.os c.name).2 with
+  | cont c' =>
+    rw [hr] at hout
+    simp only [hr] at hos ⊢
+    refine attinv_of_sub g _ hi (by rw [hos]; exact hproc) rfl (fun h p m hm => ⟨m, hm, rfl, rfl⟩) ?_
+    intro t' c'' h'
+    simp only [G.setCall] at h'
+    split at h'
+    · rename_i e
+      simp only [Option.some.injEq] at h'
+      subst h'; subst e
+      exact Or.inr hout
+    · exact Or.inl h'
+  | done y =>
+    obtain ⟨ret, nh⟩ := y
+    rw [hr] at hout
+    simp only [hr] at hos ⊢
+    have hcalls : ∀ (g' : G), g'.calls = (fun t'' => if t'' = t then none else g.calls t'') →
+        ∀ t' c'', g'.calls t' = some c'' → g.calls t' = some c'' ∨ c''.ainv (g.os.procs (g.pidOf t')) g'.hs (g.pidOf t') := by
+      intro g' hg' t' c'' h'
+      rw [hg'] at h'
+      simp only at h'
+      split at h'
+      · cases h'
+      · exact Or.inl h'
+    cases nh with
+    | none =>
+      exact attinv_of_sub g _ hi (by rw [hos]; exact hproc) rfl (fun h p m hm => ⟨m, hm, rfl, rfl⟩) (hcalls _ rfl)
+    | some z =>
+      obtain ⟨hid, ox⟩ := z
+      cases ox with
+      | none =>
+        refine attinv_of_sub g _ hi (by rw [hos]; exact hproc) rfl ?_ (hcalls _ rfl)
+        intro h p m hm
+        simp only [G.setHandle, G.setRet, G.setCall] at hm
+        split at hm
+        · cases hm
+        · exact ⟨m, hm, rfl, rfl⟩
+      | some x =>
+        cases x with
+        | shm m => exact absurd hout id
+        | sem sh =>
+          refine attinv_of_sub g _ hi (by rw [hos]; exact hproc) rfl ?_ (hcalls _ rfl)
+          intro h p m hm
+          simp only [G.setHandle, G.setRet, G.setCall] at hm
+          split at hm
+          · simp at hm
+          · exact ⟨m, hm, rfl, rfl⟩
+
+/-- a step of the thread of process `p` that changes `p`'s attachment list but stores no struct -/
+theorem attinv_step_procs (g : G) (t : Tid) (intr : Bool) (c c' : Call) (hi : AttInv g) (hc : g.calls t = some c)
+    (hr : c.after (sysStep (g.pidOf t) intr c.next g.os c.name).2 = .cont c')
+    (hfresh : ∀ att, att ∈ ((sysStep (g.pidOf t) intr c.next g.os c.name).1.procs (g.pidOf t)).atts →
+      att.addr < ((sysStep (g.pidOf t) intr c.next g.os c.name).1.procs (g.pidOf t)).nextAddr)
+    (hkeep : ∀ h m, g.hs h = some (g.pidOf t, .shm m) → attached ((sysStep (g.pidOf t) intr c.next g.os c.name).1.procs (g.pidOf t)) m)
+    (hnew : c'.ainv ((sysStep (g.pidOf t) intr c.next g.os c.name).1.procs (g.pidOf t)) g.hs (g.pidOf t)) :
+    AttInv (g.step t intr) := by
+  have hos := step_os g t intr c hc
+  have hother : ∀ q, q ≠ g.pidOf t → (sysStep (g.pidOf t) intr c.next g.os c.name).1.procs q = g.os.procs q :=
+    fun q hq => sysStep_procs_other (g.pidOf t) q intr c.next g.os c.name hq
+  simp only [G.step, hc, hr] at hos ⊢
+  refine ⟨hi.inj, ?_, ?_, hi.distinct, ?_⟩
+  · intro p att hatt
+    simp only [G.setCall] at hatt ⊢
+    by_cases hp : p = g.pidOf t
+    · subst hp; exact hfresh att hatt
+    · rw [hother p hp] at hatt ⊢; exact hi.fresh p att hatt
+  · intro h p m hm
+    simp only [G.setCall] at hm ⊢
+    by_cases hp : p = g.pidOf t
+    · subst hp; exact hkeep h m hm
+    · rw [hother p hp]; exact hi.hs h p m hm
+  · intro t' c'' h'
+    simp only [G.setCall] at h' ⊢
+    split at h'
+    · rename_i e
+      simp only [Option.some.injEq] at h'
+      subst h'; subst e
+      exact hnew
+    · rename_i e
+      have hp : g.pidOf t' ≠ g.pidOf t := fun e' => e (hi.inj t' t e')
+      rw [hother _ hp]
+      exact hi.calls t' c'' h'
+
+/-- `shmdt (a)` of process `p`: the list shrinks, the next address stays -/
+theorem shmdt_atts (os : OS) (p : Pid) (intr : Bool) (nm : Nat) (b : Option Nat) :
+    (∀ att, att ∈ ((sysStep p intr (.shmdt b) os nm).1.procs p).atts → att ∈ (os.procs p).atts) ∧
+    ((sysStep p intr (.shmdt b) os nm).1.procs p).nextAddr = (os.procs p).nextAddr := by
+  simp only [sysStep, Sys.interruptible, Bool.and_false, Bool.false_eq_true, if_false, shmdtF]
+  split
+  · exact ⟨fun _ h => h, rfl⟩
+  · simp only [OS.setProc, OS.setSeg, if_true]
+    exact ⟨fun att h => (List.mem_filter.mp h).1, trivial⟩
+
+/-- the `shmdt` step of a clean-up whose address is clear of the structs at rest -/
+theorem attinv_step_shmdt (g : G) (t : Tid) (intr : Bool) (c c' : Call) (s : ShmSt) (hi : AttInv g) (hc : g.calls t = some c)
+    (hn : c.next = .shmdt (addrOpt s.h.addr)) (hclear : Clear g.hs (g.pidOf t) s.h.addr none)
+    (hr : c.after (sysStep (g.pidOf t) intr c.next g.os c.name).2 = .cont c')
+    (hnew : ∀ pr, c'.ainv pr g.hs (g.pidOf t)) : AttInv (g.step t intr) := by
+  refine attinv_step_procs g t intr c c' hi hc hr ?_ ?_ (hnew _)
+  · intro att hatt
+    rw [hn] at hatt ⊢
+    have := shmdt_atts g.os (g.pidOf t) intr c.name (addrOpt s.h.addr)
+    rw [this.2]
+    exact hi.fresh _ att (this.1 att hatt)
+  · intro h m hm
+    refine attached_sysStep (g.pidOf t) (g.pidOf t) intr c.next g.os c.name m (hi.hs h _ m hm) (hi.fresh _) ?_
+    intro _ a ha
+    rw [hn] at ha
+    simp only [Sys.shmdt.injEq] at ha
+    have hne := hclear h m hm (by simp)
+    intro e
+    apply hne
+    rw [e]
+    cases hsa : s.h.addr with
+    | null => rw [hsa] at ha; simp [addrOpt] at ha
+    | bad => rw [hsa] at ha; simp [addrOpt] at ha
+    | «at» a' => rw [hsa] at ha; simp only [addrOpt, Option.some.injEq] at ha; rw [ha]
+
+/-- a completion that stores a segment struct (of `p_shm_new`, or of a lock / unlock) -/
+theorem attinv_step_store (g : G) (t : Tid) (intr : Bool) (c : Call) (hid : Hid) (m : PShm) (ret : Ret) (hi : AttInv g)
+    (hc : g.calls t = some c) (hproc : (sysStep (g.pidOf t) intr c.next g.os c.name).1.procs = g.os.procs)
+    (hr : c.after (sysStep (g.pidOf t) intr c.next g.os c.name).2 = .done (ret, some (hid, some (.shm m))))
+    (hatt : attached (g.os.procs (g.pidOf t)) m) (hcl : Clear g.hs (g.pidOf t) m.addr (some hid)) : AttInv (g.step t intr) := by
+  have hproc' : (g.step t intr).os.procs = g.os.procs := by rw [step_os g t intr c hc]; exact hproc
+  have hhs : (g.step t intr).hs = fun h => if h = hid then some (g.pidOf t, Handle.shm m) else g.hs h := by
+    simp [G.step, hc, hr, G.setHandle, G.setRet, G.setCall]
+  have hcalls : (g.step t intr).calls = fun t' => if t' = t then none else g.calls t' := by
+    simp [G.step, hc, hr, G.setHandle, G.setRet, G.setCall]
+  have hpid : (g.step t intr).pidOf = g.pidOf := by
+    simp [G.step, hc, hr, G.setHandle, G.setRet, G.setCall]
+  refine ⟨by rw [hpid]; exact hi.inj, by rw [hproc']; exact hi.fresh, ?_, ?_, ?_⟩
+  · intro h p m' hm'
+    rw [hproc']
+    rw [hhs] at hm'
+    simp only at hm'
+    split at hm'
+    · simp only [Option.some.injEq, Prod.mk.injEq, Handle.shm.injEq] at hm'
+      obtain ⟨rfl, rfl⟩ := hm'
+      exact hatt
+    · exact hi.hs h p m' hm'
+  · intro h1 h2 p m1 m2 e1 e2 ea
+    rw [hhs] at e1 e2
+    simp only at e1 e2
+    split at e1 <;> split at e2
+    · rename_i a b; rw [a, b]
+    · rename_i a b
+      simp only [Option.some.injEq, Prod.mk.injEq, Handle.shm.injEq] at e1
+      obtain ⟨rfl, rfl⟩ := e1
+      exact absurd ea.symm (hcl h2 m2 e2 (by simpa using b))
+    · rename_i a b
+      simp only [Option.some.injEq, Prod.mk.injEq, Handle.shm.injEq] at e2
+      obtain ⟨rfl, rfl⟩ := e2
+      exact absurd ea (hcl h1 m1 e1 (by simpa using a))
+    · exact hi.distinct h1 h2 p m1 m2 e1 e2 ea
+  · intro t' c'' h'
+    rw [hcalls] at h'
+    simp only at h'
+    split at h'
+    · cases h'
+    · rename_i e
+      have hp : g.pidOf t' ≠ g.pidOf t := fun e' => e (hi.inj t' t e')
+      rw [hproc', hpid]
+      refine ainv_mono _ g.hs _ _ c'' ?_ (hi.calls t' c'' h')
+      intro h m0 hm0
+      rw [hhs] at hm0
+      simp only at hm0
+      split at hm0
+      · simp only [Option.some.injEq, Prod.mk.injEq] at hm0
+        exact absurd hm0.1.symm hp
+      · exact ⟨m0, hm0, rfl⟩
+
+theorem hs_at (g : G) (hi : AttInv g) (p : Pid) : ∀ h m, g.hs h = some (p, .shm m) → ∃ a, m.addr = .at a := by
+  intro h m hm
+  obtain ⟨a, _, e, _, _⟩ := hi.hs h p m hm
+  exact ⟨a, e⟩
+
+/-- the `shmat` step of `p_shm_new` -/
+theorem attinv_step_shmat (g : G) (t : Tid) (intr : Bool) (hid : Hid) (s : ShmSt) (hi : AttInv g)
+    (hc : g.calls t = some (.shmNew hid s)) (hpc : s.pc = .cAt) : AttInv (g.step t intr) := by
+  obtain ⟨isNew, h, req, pc, built, isExists, failing⟩ := s
+  simp only at hpc
+  subst hpc
+  have hnull : h.addr = .null := by have := hi.calls t _ hc; simpa [Call.ainv] using this
+  cases ha : segAlive g.os h.hdl with
+  | none =>
+    have hstep : sysStep (g.pidOf t) intr (Call.shmNew hid ⟨isNew, h, req, .cAt, built, isExists, failing⟩).next g.os
+        (Call.shmNew hid ⟨isNew, h, req, .cAt, built, isExists, failing⟩).name = (g.os, .err .EINVAL) := by
+      simp [Call.next, ShmSt.next, sysStep, Sys.interruptible, shmatF, ha]
+    refine attinv_step_plain g t intr _ hi hc (by rw [hstep]) ?_
+    rw [hstep]
+    simp only [Call.after, ShmSt.after, ShmSt.fail, errOf, ShmSt.startClean]
+    simp only [bne_iff_ne, ne_eq, reduceCtorEq, not_false_eq_true, if_true, Call.ainv]
+    exact ⟨rfl, clear_null g.hs _ none _ (Or.inr rfl) (hs_at g hi _)⟩
+  | some i =>
+    obtain ⟨hh, hal⟩ := segAlive_some g.os h.hdl i ha
+    have hstep : sysStep (g.pidOf t) intr (Call.shmNew hid ⟨isNew, h, req, .cAt, built, isExists, failing⟩).next g.os
+        (Call.shmNew hid ⟨isNew, h, req, .cAt, built, isExists, failing⟩).name =
+        (shmatF g.os (g.pidOf t) h.hdl (if h.ro = true then shmatFlagsRO else shmatFlagsRW)) := by
+      simp [Call.next, ShmSt.next, sysStep, Sys.interruptible]
+    have hres : (shmatF g.os (g.pidOf t) h.hdl (if h.ro = true then shmatFlagsRO else shmatFlagsRW)).2 = .ok (g.os.procs (g.pidOf t)).nextAddr := by
+      simp [shmatF, ha]
+    have hprocs : ((shmatF g.os (g.pidOf t) h.hdl (if h.ro = true then shmatFlagsRO else shmatFlagsRW)).1.procs (g.pidOf t)) =
+        { (g.os.procs (g.pidOf t)) with
+          atts := ⟨(g.os.procs (g.pidOf t)).nextAddr, i, hasFlag (if h.ro = true then shmatFlagsRO else shmatFlagsRW) SHM_RDONLY && (if h.ro = true then shmatFlagsRO else shmatFlagsRW) != 0⟩ :: (g.os.procs (g.pidOf t)).atts,
+          nextAddr := (g.os.procs (g.pidOf t)).nextAddr + 1 } := by
+      simp [shmatF, ha, OS.setProc, OS.setSeg]
+    refine attinv_step_procs g t intr _ (.shmNew hid ⟨isNew, { h with addr := .at (g.os.procs (g.pidOf t)).nextAddr }, req, .cSem (ShmSt.lockSt ⟨isNew, h, req, .cAt, built, isExists, failing⟩), built, isExists, failing⟩) hi hc ?_ ?_ ?_ ?_
+    · rw [hstep, hres]; simp [Call.after, ShmSt.after, ShmSt.lockSt]
+    · intro att hatt
+      rw [hstep, hprocs] at hatt ⊢
+      simp only [List.mem_cons] at hatt ⊢
+      rcases hatt with e | e
+      · rw [e]; simp
+      · have := hi.fresh _ att e; omega
+    · intro h' m hm
+      exact attached_sysStep (g.pidOf t) (g.pidOf t) intr _ g.os _ m (hi.hs h' _ m hm) (hi.fresh _)
+        (by intro _ a e; simp [Call.next, ShmSt.next] at e)
+    · rw [hstep, hprocs]
+      simp only [Call.ainv]
+      refine ⟨⟨(g.os.procs (g.pidOf t)).nextAddr, ⟨(g.os.procs (g.pidOf t)).nextAddr, i, hasFlag (if h.ro = true then shmatFlagsRO else shmatFlagsRW) SHM_RDONLY && (if h.ro = true then shmatFlagsRO else shmatFlagsRW) != 0⟩, rfl, ?_, ?_⟩, ?_⟩
+      · simp [findAtt]
+      · simpa using hh
+      · intro h' m' hm' _ e
+        obtain ⟨a, att, e1, e2, _⟩ := hi.hs h' _ m' hm'
+        have hlt := hi.fresh _ att (findAtt_mem _ a att e2).1
+        have hadr := (findAtt_mem _ a att e2).2
+        rw [e1] at e
+        simp only [Addr.at.injEq] at e
+        omega
+
+theorem sem_next_procs (p : Pid) (intr : Bool) (st : SemSt) (os : OS) (nm : Nat) : (sysStep p intr st.next os nm).1.procs = os.procs := by
+  apply sysStep_procs
+  · intro id fl e
+    obtain ⟨api, sh, spc, _, _, _⟩ := st
+    cases spc <;> simp [SemSt.next] at e
+  · intro a e
+    obtain ⟨api, sh, spc, _, _, _⟩ := st
+    cases spc <;> simp [SemSt.next] at e
+
+theorem attinv_step_semkinds (g : G) (t : Tid) (intr : Bool) (c : Call) (hi : AttInv g) (hc : g.calls t = some c)
+    (hk : (∃ hid s, c = .semNew hid s) ∨ (∃ s, c = .semFree s) ∨ (∃ hid s, c = .semOp hid s)) : AttInv (g.step t intr) := by
+  rcases hk with ⟨hid, s, rfl⟩ | ⟨s, rfl⟩ | ⟨hid, s, rfl⟩
+  all_goals
+    refine attinv_step_plain g t intr _ hi hc (sem_next_procs _ _ s _ _) ?_
+    simp only [Call.next, Call.name, Call.after]
+    cases hr : s.after (sysStep (g.pidOf t) intr s.next g.os 0).2 with
+    | cont s' => trivial
+    | done x =>
+      obtain ⟨h, e⟩ := x
+      first
+      | (cases e <;> trivial)
+      | trivial
+
+theorem attinv_step_lock (g : G) (t : Tid) (intr : Bool) (hid : Hid) (m : PShm) (s : SemSt) (hi : AttInv g)
+    (hc : g.calls t = some (.lockOp hid m s)) : AttInv (g.step t intr) := by
+  have hinv := hi.calls t _ hc
+  simp only [Call.ainv] at hinv
+  cases hr : s.after (sysStep (g.pidOf t) intr s.next g.os 0).2 with
+  | cont s' =>
+    refine attinv_step_plain g t intr _ hi hc (sem_next_procs _ _ s _ _) ?_
+    simp only [Call.next, Call.name, Call.after, hr]
+    exact hinv
+  | done x =>
+    obtain ⟨h, e⟩ := x
+    refine attinv_step_store g t intr _ hid { m with sem := some h } (retOf e) hi hc (sem_next_procs _ _ s _ _) ?_ ?_ hinv.2
+    · simp only [Call.next, Call.name, Call.after, hr]
+    · obtain ⟨a, att, e1, e2, e3⟩ := hinv.1
+      exact ⟨a, att, e1, e2, e3⟩
+
+theorem shm_next_procs (p : Pid) (intr : Bool) (s : ShmSt) (os : OS) (nm : Nat) (h1 : s.pc ≠ .cAt) (h2 : s.pc ≠ .kDt) :
+    (sysStep p intr s.next os nm).1.procs = os.procs := by
+  obtain ⟨isNew, h, req, pc, built, isExists, failing⟩ := s
+  cases pc with
+  | cAt => exact absurd rfl h1
+  | kDt => exact absurd rfl h2
+  | cSem st => simpa [ShmSt.next] using sem_next_procs p intr st os nm
+  | kSem st => simpa [ShmSt.next] using sem_next_procs p intr st os nm
+  | _ => all_goals (apply sysStep_procs <;> intros <;> simp [ShmSt.next])
+
+theorem attinv_step_new (g : G) (t : Tid) (intr : Bool) (hid : Hid) (s : ShmSt) (hi : AttInv g)
+    (hc : g.calls t = some (.shmNew hid s)) : AttInv (g.step t intr) := by
+  by_cases h1 : s.pc = .cAt
+  · exact attinv_step_shmat g t intr hid s hi hc h1
+  · by_cases h2 : s.pc = .kDt
+    · have hinv := hi.calls t _ hc
+      obtain ⟨isNew, h, req, pc, built, isExists, failing⟩ := s
+      simp only at h2
+      subst h2
+      simp only [Call.ainv] at hinv
+      refine attinv_step_shmdt g t intr _ (.shmNew hid ⟨isNew, h, req, .kStat, built, isExists, failing⟩) ⟨isNew, h, req, .kDt, built, isExists, failing⟩ hi hc rfl hinv.2 ?_ ?_
+      · simp [Call.after, ShmSt.after]
+      · intro pr; simp only [Call.ainv]; exact hinv.1
+    · have hproc := shm_next_procs (g.pidOf t) intr s g.os s.h.name h1 h2
+      have hout := shmNew_after_ainv (g.os.procs (g.pidOf t)) g.hs (g.pidOf t) hid s (sysStep (g.pidOf t) intr s.next g.os s.h.name).2
+        (hs_at g hi _) (hi.calls t _ hc) h1 h2
+      cases hr : s.after (sysStep (g.pidOf t) intr s.next g.os s.h.name).2 with
+      | cont s' =>
+        rw [hr] at hout
+        refine attinv_step_plain g t intr _ hi hc hproc ?_
+        simp only [Call.next, Call.name, Call.after, hr]
+        exact hout
+      | done x =>
+        obtain ⟨h, e⟩ := x
+        rw [hr] at hout
+        cases e with
+        | error e =>
+          refine attinv_step_plain g t intr _ hi hc hproc ?_
+          simp only [Call.next, Call.name, Call.after, hr]
+        | ok u =>
+          refine attinv_step_store g t intr _ hid h (.shm h) hi hc hproc ?_ hout.1 ?_
+          · simp only [Call.next, Call.name, Call.after, hr]
+          · intro h' m' hm' _; exact hout.2 h' m' hm' (by simp)
 
 end PV.SysV
